@@ -246,6 +246,7 @@ def run_one(seed, tape, opts):
         sim.net.read_after_lose = True
         sim.note("probe.transport_reads_after_loseConnection")
     # workload
+    burst_dir = []
     if opts.get("fixed"):
         recs = {"s2r": [tape.blob(n, i) for i, n in enumerate(FIXED)],
                 "r2s": [tape.blob(n, 100 + i) for i, n in enumerate(FIXED)]}
@@ -264,6 +265,16 @@ def run_one(seed, tape, opts):
                                  tape.choose(3, "big") == 0 and n < 60 else
                                  tape.choose(40, "small"), i)
                        for i in range(n)]
+        if tape.choose(24, "burst") == 0:
+            # scale: a burst of 1000..2500 tiny records in one direction,
+            # coalesced into the largest reads a transport makes (64 KiB)
+            d = tape.pick(("s2r", "r2s"), "burst_d")
+            tiny = [b"", b"x", b"ab"]
+            recs[d] = [tiny[i % 3] for i in
+                       range(1000 + tape.choose(1500, "burst_n"))]
+            sim.chunk_mode = "all"
+            sim.note("probe.burst_of_tiny_records")
+            burst_dir.append(d)
         tamper = None
         if tape.choose(3, "tamper?"):
             d = tape.pick(("s2r", "r2s"), "td")
@@ -305,10 +316,17 @@ def run_one(seed, tape, opts):
                  "mode": readers[d], "attached": False, "multi_chunk": False,
                  "expected_n": None, "rx_base": rx_end[d].rx_count}
 
+    for d_ in burst_dir:
+        # the receiving host is busy while the burst is being sent: the
+        # kernel buffers, the next reads are as large as reads get
+        rx_end[d_].stalled = True
+
     def send_next(d):
         tx = conns[d][0]
         i = st[d]["sent"]
         st[d]["sent"] += 1
+        if d in burst_dir and st[d]["sent"] >= len(recs[d]):
+            rx_end[d].stalled = False
         try:
             tx.send_record(recs[d][i])
         except Exception as e:
